@@ -92,6 +92,7 @@ func scanOnce(c scanCase, m *scanModel) (out Outcome) {
 	sc := gohbase.VerifNewScanner(m, call)
 	want := spec.expected()
 	var acc rowAcc
+	acc.skipEmpty = spec.EmptyFirst
 	type step struct {
 		res *hrpc.Result
 		err error
